@@ -145,6 +145,21 @@ fn sasl_bind_req(mech: &str, creds: Option<&[u8]>) -> Tag {
     })
 }
 
+#[cfg(ldap3_verif)]
+impl Ldap {
+    pub fn verif_id_table(&self) -> (i32, Vec<i32>) {
+        let m = self.msgmap.lock().unwrap();
+        let mut v: Vec<i32> = m.1.iter().copied().collect();
+        v.sort();
+        (m.0, v)
+    }
+    pub fn verif_set_id_table(&self, last: i32, in_use: &[i32]) {
+        let mut m = self.msgmap.lock().unwrap();
+        m.0 = last;
+        m.1 = in_use.iter().copied().collect();
+    }
+}
+
 impl Ldap {
     fn next_msgid(&mut self) -> i32 {
         let mut msgmap = self.msgmap.lock().expect("msgmap mutex (inc id)");
